@@ -144,12 +144,12 @@ fn gen_history<P: Payload>(
         let phase = rng.below(4);
         let phase_len = (1 + rng.usize_below(prof.len / 3 + 2)).min(remaining);
         remaining -= phase_len;
-        // weights: add, fetch, cancel, past-add
-        let w: [u64; 4] = match phase {
-            0 => [75, 10, 12, 3],
-            1 => [45, 40, 12, 3],
-            2 => [15, 70, 12, 3],
-            _ => [55, 25, 17, 3],
+        // weights: add, fetch, cancel, past-add, peek
+        let w: [u64; 5] = match phase {
+            0 => [75, 10, 12, 3, 5],
+            1 => [45, 40, 12, 3, 5],
+            2 => [15, 70, 12, 3, 5],
+            _ => [55, 25, 17, 3, 5],
         };
         for _ in 0..phase_len {
             let mut w = w;
@@ -195,12 +195,13 @@ fn gen_history<P: Payload>(
                     }
                     r.cancel(tag)
                 }
-                _ => {
+                3 => {
                     let c = r.current();
                     let back = 1 + rng.below(c.min(u128::from(u64::MAX / 2)) as u64) as u128;
                     let time = if rng.chance(1, 2) { c - 1 } else { c - back.min(c) };
                     r.add_past(time)
                 }
+                _ => r.peek(),
             };
             if let Err(f) = res {
                 result = Err(f);
@@ -222,7 +223,15 @@ fn gen_history<P: Payload>(
             states.dedup();
             (res, ops, states)
         }
-        Err(f) => (Err(f), ops, states),
+        Err(f) => {
+            // the C15 driver decides its own obligations even if a sibling oracle failed first
+            if oracles.shadow && f.property != "C15" {
+                if let Some(own) = r.finish_after_failure() {
+                    return (Err(own), ops, states);
+                }
+            }
+            (Err(f), ops, states)
+        }
     }
 }
 
@@ -231,25 +240,41 @@ fn gen_history<P: Payload>(
 fn run_ops<P: Payload>(cfg: Cfg, oracles: Oracles, ops: &[Op]) -> Result<(Stats, Vec<usize>), Failure> {
     let mut r = Runner::<P>::new(cfg, oracles);
     let mut order = Vec::new();
+    let mut early: Option<Failure> = None;
     for (i, op) in ops.iter().enumerate() {
-        // `at_op` of a failure refers to the position in `ops` (skipped operations included)
-        let at = |mut f: Failure| {
-            f.at_op = i;
-            f
-        };
-        match *op {
-            Op::Add { time_ns } if time_ns >= r.current() => r.add(time_ns).map_err(at)?,
-            Op::AddPast { time_ns } if time_ns < r.current() => r.add_past(time_ns).map_err(at)?,
-            Op::Cancel { tag } if tag < r.tags() => r.cancel(tag).map_err(at)?,
+        let res = match *op {
+            Op::Add { time_ns } if time_ns >= r.current() => r.add(time_ns),
+            Op::AddPast { time_ns } if time_ns < r.current() => r.add_past(time_ns),
+            Op::Cancel { tag } if tag < r.tags() => r.cancel(tag),
+            Op::Peek => r.peek(),
             Op::Fetch if r.pending() > 0 => {
                 let before: Vec<bool> = (0..r.tags()).map(|t| r.is_pending(t)).collect();
-                r.fetch().map_err(at)?;
-                if let Some(t) = (0..r.tags()).find(|t| before[*t] && !r.is_pending(*t)) {
-                    order.push(t);
+                let res = r.fetch();
+                if res.is_ok() {
+                    if let Some(t) = (0..r.tags()).find(|t| before[*t] && !r.is_pending(*t)) {
+                        order.push(t);
+                    }
                 }
+                res
             }
-            _ => {}
+            _ => Ok(()),
+        };
+        if let Err(mut f) = res {
+            // `at_op` of a failure refers to the position in `ops` (skipped operations included)
+            f.at_op = i;
+            early = Some(f);
+            break;
         }
+    }
+    if let Some(f) = early {
+        if oracles.shadow && f.property != "C15" {
+            let at = f.at_op;
+            if let Some(mut own) = r.finish_after_failure() {
+                own.at_op = at;
+                return Err(own);
+            }
+        }
+        return Err(f);
     }
     let n = ops.len();
     let stats = r.finish().map_err(|mut f| {
@@ -343,20 +368,20 @@ fn report_failure<P: Payload>(
     failure: &Failure,
     origin: Value,
 ) -> bool {
+    if failure.property != own_property {
+        // a failure that belongs to a sibling property (e.g. a broken list seen by the C15 driver): it is
+        // that property's check that raises the alarm. Here it is recorded as information, the history is
+        // not counted as evidence, and the worker gives up after a few of them (no point in going on).
+        rep.count(&format!("foreign_failures_{}", failure.property), 1);
+        rep.info(format!("foreign failure {}/{}: {}", failure.property, failure.kind, failure.detail));
+        let seen: u64 = rep.counters.iter().filter(|(k, _)| k.starts_with("foreign_failures_")).map(|(_, v)| *v).sum();
+        return seen < 25;
+    }
     let (ops, failure) = shrink::<P>(cfg, oracles, ops, failure);
     let signature = format!("{}/{}", failure.property, failure.kind);
     let detail = format!("{} (operation #{} of {})", failure.detail, failure.at_op, ops.len());
     let case = case_json(sub, payload, cfg, oracles, &ops, origin);
-    if failure.property == own_property {
-        rep.violation(&signature, &detail, case)
-    } else {
-        // a failure that belongs to a sibling property (e.g. an order failure seen by the C15 driver):
-        // it is that property's check that raises the alarm; here it is recorded as information,
-        // and the history is not counted as evidence for this property.
-        rep.count(&format!("foreign_failures_{}", failure.property), 1);
-        rep.info(format!("foreign failure {signature}: {detail}"));
-        true
-    }
+    rep.violation(&signature, &detail, case)
 }
 
 fn add_stats(rep: &mut Report, s: &Stats) {
@@ -393,6 +418,7 @@ fn history_hash(cfg: Cfg, payload: usize, ops: &[Op]) -> u64 {
             Op::AddPast { time_ns } => h.u64(2).u128(*time_ns),
             Op::Cancel { tag } => h.u64(3).u64(*tag as u64),
             Op::Fetch => h.u64(4),
+            Op::Peek => h.u64(5),
         };
     }
     h.finish()
@@ -439,6 +465,9 @@ fn enum_alphabet(cfg: Cfg, oracles: Oracles, prefix: &[Op]) -> Result<(Vec<Op>, 
     }
     if r.pending() > 0 {
         alpha.push(Op::Fetch);
+    }
+    if !matches!(prefix.last(), Some(Op::Peek)) {
+        alpha.push(Op::Peek);
     }
     // cancel of any handle: one pending... all tags (handles that were consumed are skipped)
     let cancelled: Vec<usize> = prefix
